@@ -182,3 +182,50 @@ Proof. exact eval_number_ci. Qed.
 Theorem C16_case_parse_partial : forall ts ts' f pos,
   Forall2 tci' ts ts' -> relp Qa (popcode ts f pos) (popcode ts' f pos).
 Proof. exact parse_opcode_case_blind_partial. Qed.
+
+(** Letter case, END TO END on source text ([assemble_source]): two texts equal up to ASCII letter
+    case, differing only inside mnemonics, size suffixes, index registers, numerals (not their base
+    marker) and comments, assemble to the same blocks and labels, fail with the same parse error,
+    or raise the same kind of exception at the same position.  (Generic simulation of parser, code
+    generation and passes over a token relation that may change values where a type test has shown
+    them case-proof; [.map] numbers through [py_int_literal_ci].)  Hypotheses on the two token
+    lists: only zone tokens were re-cased, base markers kept, no mnemonic spelled "else"; no
+    included file. *)
+From A816 Require Import Model.Assemble Proofs.CaseTextParse Proofs.CaseText.
+Theorem C16_case_source : forall t fs c f s s' toks lines,
+  kw_ok (lv_lex t) = true -> ci_text s s' -> case_safe s s' ->
+  sf_text fs = [] ->
+  scan (lv_lex t) f s = ScanOk toks lines ->
+  (forall toks' lines', scan (lv_lex t) f s' = ScanOk toks' lines' ->
+     only_zones_recased toks toks' /\ same_base_markers toks toks') ->
+  no_else_mnemonic toks ->
+  result_same (assemble_source t fs c f s) (assemble_source t fs c f s').
+Proof. exact case_insensitive_source. Qed.
+
+(** Blanks INSIDE a line: inserting spaces at a gap between two tokens — after or before
+    [, ( ) [ ] # + - * & | ~ << >> =], after a label, after a mnemonic before its operand, at the
+    start of a line — changes no token's type or value; tokens before the gap keep their position,
+    tokens after it move right by the number of spaces.  [gap_ok] is a decidable, conservative
+    description of such gaps (not inside numbers, identifiers, two-character operators, strings or
+    comments, not between a mnemonic and its suffix; necessity examples gap_neg_* in
+    Proofs/ScannerBlank2.v).  Spaces only: a tab inside an operand is rejected by the scanner
+    (`lda 1,<TAB>x` raises: tab_in_operand). *)
+From A816 Require Import Proofs.ScannerBlank1 Proofs.ScannerBlank2.
+Theorem C16_blank_insertion : forall lx file a u w v b ta ea la t1 e1 l1,
+  lexicon_ok lx = true -> lexicon_alpha lx = true ->
+  ends_nl a -> scan lx file a = ScanOk (ta ++ [ea]) la ->
+  ~ In 10%Z u -> ~ In 10%Z v -> Forall (fun c => c = 32%Z) w ->
+  gap_ok lx u v = true ->
+  scan lx file (u ++ v ++ [10%Z]) = ScanOk (t1 ++ [e1]) l1 ->
+  view_of (scan lx file (a ++ (u ++ w ++ v ++ [10%Z]) ++ b)) =
+  view_of (scan lx file (a ++ (u ++ v ++ [10%Z]) ++ b)).
+Proof. exact blank_insertion_invisible. Qed.
+Theorem C16_blank_insertion_columns : forall lx file u w v T L,
+  lexicon_alpha lx = true -> ~ In 10%Z u -> ~ In 10%Z v -> Forall (fun c => c = 32%Z) w -> w <> [] ->
+  gap_ok lx u v = true ->
+  scan lx file (u ++ v ++ [10%Z]) = ScanOk T L ->
+  exists O N Ls,
+    T = O ++ map (colshift_tok (length u)) N /\ L = first_fwd u Ls /\
+    scan lx file (u ++ w ++ v ++ [10%Z]) =
+      ScanOk (O ++ map (colshift_tok (length u + length w)) N) (first_fwd (u ++ w) Ls).
+Proof. exact blank_insertion_results. Qed.
